@@ -76,8 +76,14 @@ def _flattenGlyphComponents(glyph, glyphSet):
         flattened_tuples = _flattenComponent(glyphSet, comp, found_in=glyph)
         if flattened_tuples[0] != (comp.baseGlyph, comp.transformation):
             flattened = True
-        for flattened_tuple in flattened_tuples:
-            pen.addComponent(*flattened_tuple)
+            for flattened_tuple in flattened_tuples:
+                pen.addComponent(*flattened_tuple)
+        else:
+            # nothing to flatten: put the component back as it was, including its
+            # identifier (which 'public.objectLibs' entries refer to)
+            pen.addComponent(
+                comp.baseGlyph, comp.transformation, identifier=comp.identifier
+            )
     return flattened
 
 
